@@ -413,7 +413,7 @@ class RoomManager(BaseManager):
             self, message: PrivateRoomOperatorGranted.Response, connection: ServerConnection):
 
         room = self.get_or_create_room(message.room, private=True)
-        room.operators.discard(self._user_manager.get_self().name)
+        room.operators.add(self._user_manager.get_self().name)
 
         await self._event_bus.emit(
             RoomOperatorGrantedEvent(
